@@ -391,8 +391,11 @@ func (viso *VirtualISO) makeDirEntries(item *dirItem, joliet bool) error {
 		totalSizeBytes += entry.size()
 	}
 
-	// total size must be integer number of sectors so ceil it if needed
-	totalSizeBytes = totalSizeBytes.sectors().bytes()
+	// total size must be integer number of sectors, also entries must not cross sector boundary
+	totalSizeBytes = directoryEntriesSize(item.dirEntry)
+	if joliet {
+		totalSizeBytes = directoryEntriesSize(item.dirEntryJoliet)
+	}
 
 	// set correct size to first entry
 	if joliet {
@@ -618,6 +621,10 @@ func (viso *VirtualISO) writeFSStructures(gameCode string) error {
 	// iso directories
 	for _, item := range viso.rootDir {
 		for _, dirEntry := range item.dirEntry {
+			if viso.fsBuf.size()%sectorSize+dirEntry.size() > sectorSize {
+				viso.fsBuf.padLastSector() // entry must not cross sector boundary
+			}
+
 			dirEntry.encode(&viso.fsBuf)
 		}
 
@@ -627,6 +634,10 @@ func (viso *VirtualISO) writeFSStructures(gameCode string) error {
 	// joliet directories
 	for _, item := range viso.rootDir {
 		for _, dirEntry := range item.dirEntryJoliet {
+			if viso.fsBuf.size()%sectorSize+dirEntry.size() > sectorSize {
+				viso.fsBuf.padLastSector() // entry must not cross sector boundary
+			}
+
 			dirEntry.encode(&viso.fsBuf)
 		}
 
